@@ -150,6 +150,7 @@ type Op struct {
 	Schedule []int      `json:"schedule,omitempty"`
 	Bufs     []int      `json:"bufs,omitempty"`
 	Watchdog int        `json:"watchdog_ms,omitempty"`
+	ModelExp *int       `json:"model_exp,omitempty"` // what the Level-I model expects (cross-checked against Level A)
 	NoStats  bool       `json:"nostats,omitempty"`
 }
 
@@ -964,7 +965,7 @@ type itFlags struct{ freq, norm, locs bool }
 func (e *Env) doItStep(op *Op) string {
 	it := e.its[op.It]
 	if it == nil {
-		e.emit(M{"ev": op.Op, "it": op.It, "d": op.D, "res": M{"kind": "noit"}})
+		e.emit(M{"ev": op.Op, "it": op.It, "d": op.D, "model_exp": -2, "res": M{"kind": "noit"}})
 		return "noit"
 	}
 	fl := e.itFlags[op.It]
@@ -989,7 +990,11 @@ func (e *Env) doItStep(op *Op) string {
 	} else {
 		res = k
 	}
-	e.emit(M{"ev": op.Op, "it": op.It, "d": op.D, "res": res})
+	me := -2
+	if op.ModelExp != nil {
+		me = *op.ModelExp
+	}
+	e.emit(M{"ev": op.Op, "it": op.It, "d": op.D, "model_exp": me, "res": res})
 	return res["kind"].(string)
 }
 
